@@ -31,11 +31,34 @@ type Case struct {
 	Dups      bool   `json:"dups"`  // input values repeat
 	Buffered  int    `json:"chan_buffer,omitempty"`
 	Empties   int    `json:"leading_empty_sources,omitempty"` // MergeIterators: that many empty sources in front of the others
-	Yields    []int  `json:"yields"`
-	Procs     int    `json:"gomaxprocs"`
+	// WorkersVia says how the worker count reaches a worker group:
+	// "option" (WorkerGroupConfNumWorkers), "set" (a prepared
+	// WorkerGroupConf through WorkerGroupConfSet) or "custom" (a
+	// hand-written provider assigning the field).  With NonPositive the
+	// configured count is 0 or negative ("all values less than 1 are
+	// converted to 1"): the case then runs with one worker.
+	WorkersVia  string `json:"workers_via,omitempty"`
+	NonPositive int    `json:"non_positive_workers,omitempty"` // 0: use Width; otherwise the count configured is 1-NonPositive (0, -1, -2, ...)
+	Yields      []int  `json:"yields"`
+	Procs       int    `json:"gomaxprocs"`
 }
 
 var constructs = []string{"Split", "ProcessParallel", "ParallelForEach", "itertool.Worker", "Map", "Map-ordered", "Buffer", "ParallelBuffer", "MergeIterators", "GenerateParallel", "ChannelIterator-readers", "Split-Map-Merge"}
+
+// workers builds the option that configures the worker count.
+func (c *Case) workers(w int) fun.OptionProvider[*fun.WorkerGroupConf] {
+	n := w
+	if c.NonPositive > 0 {
+		n = 1 - c.NonPositive
+	}
+	switch c.WorkersVia {
+	case "set":
+		return fun.WorkerGroupConfSet(&fun.WorkerGroupConf{NumWorkers: n})
+	case "custom":
+		return func(o *fun.WorkerGroupConf) error { o.NumWorkers = n; return nil }
+	}
+	return fun.WorkerGroupConfNumWorkers(n)
+}
 
 func input(c *Case) []int {
 	in := make([]int, c.N)
@@ -111,21 +134,21 @@ func runCase(c *Case) (got []int, ordered bool, why string) {
 		}
 		wg.Wait()
 	case "ProcessParallel":
-		err = fun.SliceIterator(in).ProcessParallel(func(_ context.Context, v int) error { y(v); s.add(v); return nil }, fun.WorkerGroupConfNumWorkers(w)).Run(ctx)
+		err = fun.SliceIterator(in).ProcessParallel(func(_ context.Context, v int) error { y(v); s.add(v); return nil }, c.workers(w)).Run(ctx)
 	case "ParallelForEach":
-		err = itertool.ParallelForEach(ctx, fun.SliceIterator(in), func(_ context.Context, v int) error { y(v); s.add(v); return nil }, fun.WorkerGroupConfNumWorkers(w))
+		err = itertool.ParallelForEach(ctx, fun.SliceIterator(in), func(_ context.Context, v int) error { y(v); s.add(v); return nil }, c.workers(w))
 	case "itertool.Worker":
 		ops := make([]fun.Operation, len(in))
 		for i, v := range in {
 			v := v
 			ops[i] = func(context.Context) { y(v); s.add(v) }
 		}
-		err = itertool.Worker(ctx, fun.SliceIterator(ops), fun.WorkerGroupConfNumWorkers(w))
+		err = itertool.Worker(ctx, fun.SliceIterator(ops), c.workers(w))
 	case "Map", "Map-ordered":
 		if c.Construct == "Map-ordered" {
 			w, ordered = 1, true
 		}
-		it := fun.Map(fun.SliceIterator(in), func(_ context.Context, v int) (int, error) { y(v); return v, nil }, fun.WorkerGroupConfNumWorkers(w))
+		it := fun.Map(fun.SliceIterator(in), func(_ context.Context, v int) (int, error) { y(v); return v, nil }, c.workers(w))
 		drain(it)
 	case "Buffer":
 		ordered = true
@@ -162,7 +185,7 @@ func runCase(c *Case) (got []int, ordered bool, why string) {
 			}
 			y(i)
 			return in[i], nil
-		}).GenerateParallel(fun.WorkerGroupConfNumWorkers(w))
+		}).GenerateParallel(c.workers(w))
 		drain(it)
 	case "ChannelIterator-readers":
 		ch := make(chan int, c.Buffered)
@@ -282,6 +305,14 @@ func genCase(t *rapid.T) *Case {
 	}
 	if rapid.IntRange(0, 5).Draw(t, "wide") == 0 {
 		c.Width = rapid.SampledFrom([]int{12, 16, 32, 64}).Draw(t, "wideWidth")
+	}
+	switch c.Construct {
+	case "ProcessParallel", "ParallelForEach", "itertool.Worker", "Map", "Map-ordered", "GenerateParallel":
+		c.WorkersVia = rapid.SampledFrom([]string{"option", "option", "set", "custom"}).Draw(t, "workersVia")
+		if rapid.IntRange(0, 5).Draw(t, "nonPositive") == 0 {
+			c.NonPositive = rapid.IntRange(1, 4).Draw(t, "nonPositiveBy")
+			c.Width = 1 // the effective number of workers
+		}
 	}
 	if c.Construct == "MergeIterators" {
 		c.Empties = rapid.SampledFrom([]int{0, 0, 0, 1, 3, 30, 3000, 30000}).Draw(t, "leadingEmpties")
